@@ -40,6 +40,14 @@ class E:
                 self._key = ("call", self.nid)
             elif self.k == "local":
                 self._key = ("local", self.extra)
+            elif self.k == "const":
+                # two different constants are two different values (they used to share one key, which correlated unrelated
+                # predicates such as `s & RETIRED == 0` and `s & READERS == READERS`)
+                d = self.extra if isinstance(self.extra, dict) else {}
+                v = d.get("val", d.get("def", d.get("txt")))
+                if v is None and d.get("prefs"):
+                    v = tuple(d["prefs"])
+                self._key = ("const", v if isinstance(v, (int, str, bool, tuple, type(None))) else repr(v), d.get("def"))
             else:
                 self._key = (self.k, self.extra if not isinstance(self.extra, dict) else None) + tuple(x.key() for x in self.a)
         return self._key
